@@ -36,18 +36,20 @@ impl BinaryOperators {
     pub fn new() -> BinaryOperators {
         let mut operators = HashMap::new();
 
-        operators.insert(Operator::Single('.'), BinaryOperator::new(6));
-        operators.insert(Operator::Single('^'), BinaryOperator::new(5));
-        operators.insert(Operator::Single('*'), BinaryOperator::new(5));
-        operators.insert(Operator::Single('/'), BinaryOperator::new(5));
-        operators.insert(Operator::Single('+'), BinaryOperator::new(4));
-        operators.insert(Operator::Single('-'), BinaryOperator::new(4));
-        operators.insert(Operator::Single('<'), BinaryOperator::new(3));
-        operators.insert(Operator::Dual('<', '='), BinaryOperator::new(3));
-        operators.insert(Operator::Single('>'), BinaryOperator::new(3));
-        operators.insert(Operator::Dual('>', '='), BinaryOperator::new(3));
-        operators.insert(Operator::Single('='), BinaryOperator::new(2));
-        operators.insert(Operator::Dual('!', '='), BinaryOperator::new(2));
+        // Standard SQL precedence (see also Parser::get_token_precedence): OR (1), AND (2), NOT (3),
+        // comparisons with IS and IN (4), + - (5), * / (6), unary minus (7), cast and subscript (8), qualified names (9)
+        operators.insert(Operator::Single('.'), BinaryOperator::new(9));
+        operators.insert(Operator::Single('^'), BinaryOperator::new(6));
+        operators.insert(Operator::Single('*'), BinaryOperator::new(6));
+        operators.insert(Operator::Single('/'), BinaryOperator::new(6));
+        operators.insert(Operator::Single('+'), BinaryOperator::new(5));
+        operators.insert(Operator::Single('-'), BinaryOperator::new(5));
+        operators.insert(Operator::Single('<'), BinaryOperator::new(4));
+        operators.insert(Operator::Dual('<', '='), BinaryOperator::new(4));
+        operators.insert(Operator::Single('>'), BinaryOperator::new(4));
+        operators.insert(Operator::Dual('>', '='), BinaryOperator::new(4));
+        operators.insert(Operator::Single('='), BinaryOperator::new(4));
+        operators.insert(Operator::Dual('!', '='), BinaryOperator::new(4));
 
         BinaryOperators {
             operators
